@@ -17,7 +17,7 @@ import ast
 from ..affine import Lin, lin
 from ..facts import atoms, call_is, meth_is, strip
 from ..model import AnalysisError, norm
-from ..paths import CursorLoop, eq_subst, find_loops, int_lower_bounds
+from ..paths import CursorLoop, eq_subst, find_loops, int_lower_bounds, offset_view
 from ..terms import is_const, show, subterms, summarize
 
 PARSE = "msmart.device.AC.command.CapabilitiesResponse._parse_capabilities"
@@ -35,6 +35,11 @@ def record_loop(ctx, s, fn, cursor_candidates=("caps",)):
             edges = cl.back_edges()
             if edges and any(strip(st.env.get(name, ("top",)))[0] == "slice" for _k, st in edges):
                 return cl
+    # an integer cursor into the payload (offset += 3 + size; payload[offset + k]) is the same loop over the view payload[offset:]
+    for l in loops:
+        ov = offset_view(s, l)
+        if ov is not None:
+            return ov[0]
     raise AnalysisError(f"{fn.qual}: no record loop with a sliced cursor found")
 
 
@@ -70,13 +75,14 @@ def run(ctx):
     file = fn.module.rel
     s = summarize(prog, fn)
     cl = record_loop(ctx, s, fn)
+    s = cl.s                  # (the summary seen through the view rewrite when the cursor is an integer offset)
     ctx.count("record_loops")
     # ---- C15.a
     n = check_cursor(ctx, "C15.a", cl, fn, HDR, SIZE_AT, "record-loop")
     ctx.count("back_edges", n)
     # ---- C15.b
     size = cl.field(SIZE_AT)
-    for node, k, pc in cl.reads():
+    for node, k, pc in cl.reads(prog):
         ctx.count("reads")
         facts = atoms(pc)
         lbs = int_lower_bounds(facts)
@@ -153,6 +159,21 @@ def run(ctx):
         if v and v[0] == "mut" and v[1] == "update" and v[2] == ("attr", ("param", mp[0]), "_capabilities") \
                 and strip(v[3][0]) == ("attr", ("param", mp[1]), "_capabilities"):
             merged = True
+        # the same as an explicit in-order copy loop / the dict union operators
+        if v and strip(v)[0] == "bin" and strip(v)[1] == "|" and strip(strip(v)[2]) == ("attr", ("param", mp[0]), "_capabilities") \
+                and strip(strip(v)[3]) == ("attr", ("param", mp[1]), "_capabilities"):
+            merged = True
+        if v and v[0] == "loopvar":
+            loop = next((l for l in ms.loops if getattr(l, "lineno", None) == v[2] and isinstance(l, ast.For)), None)
+            info = ms.loops.get(loop) if loop is not None else None
+            if info and not info["breaks"] and not info["continues"] and len(info["ends"]) == 1 and info["body_entry"] is not None \
+                    and info["ends"][0].pc == info["body_entry"].pc and info["entry"].env.get(f"{mp[0]}._capabilities") is None:
+                it = strip(ms.ta.terms_at.get(loop.iter, ("top",)))
+                e = info["ends"][0].env.get(f"{mp[0]}._capabilities")
+                if it[0] == "call" and it[1][0] == "meth" and it[1][2] == "items" and strip(it[1][1]) == ("attr", ("param", mp[1]), "_capabilities") \
+                        and e is not None and e[0] == "store" and e[1] == v and strip(e[2]) == ("item", ("iter", ms.ta.terms_at[loop.iter]), 0) \
+                        and strip(e[3]) == ("item", ("iter", ms.ta.terms_at[loop.iter]), 1):
+                    merged = True
     ctx.ob("C15.d", MERGE, merged, "merge(other) is self._capabilities.update(other._capabilities) (later records override earlier ones)",
            func=MERGE, file=m.module.rel, construct="self._capabilities.update(other._capabilities)",
            fail="merge() is not an in-order dict.update of the other response's capabilities into this one")
@@ -213,7 +234,7 @@ def run(ctx):
                func=GETCAPS, file=g.module.rel, node=n, detail={"argument": show(arg) if arg else None},
                fail="_update_capabilities does not see the merged response (update before merge, or the wrong response object)")
     ctx.require_min("record_loops", 1)
-    ctx.require_min("back_edges", 4)
-    ctx.require_min("reads", 8)
-    ctx.require_min("carried", 2)
+    ctx.require_min("back_edges", 2)
+    ctx.require_min("reads", 2)
+    ctx.require_min("carried", 1)
     ctx.require_min("paging", 4)
